@@ -1,8 +1,53 @@
-import CTV.Der.Asn1
-/-! # C10 (skeleton; theorems follow) -/
+import CTV.Lemmas.DerLax
+/-!
+# C10 — The ASN.1 fork is as strict as upstream; lax mode only adds acceptances
+
+Theorems over the hand-written model `CTV.Der` (`parseField` = asn1.go `parseField`, `marshalField` =
+marshal.go `makeField`), for **every** target type `t : ATy`, every field-parameter record `p : FP`, every
+input `bs` and every dialect `d` (the switches regenerated from the Go source: base-128 minimality,
+SET OF sorting). The model is tied to the code by the three-way correspondence run of `./check C10`.
+
+The clause "strict mode accepts iff `encoding/asn1` accepts, with equal value and remainder, up to the
+documented list" is a statement about two Go programs; it is **correspondence-decided** (model in the
+upstream dialect vs `encoding/asn1` of go1.24.1, model in the fork's dialect vs the fork, fork vs
+`encoding/asn1`), not proved here. See notes/C10.md.
+-/
 namespace C10
 open CTV CTV.Der
 
-theorem placeholder_true : True := trivial
+/-- **lax ⊇ strict, identical results.** Whatever `Unmarshal` accepts, `UnmarshalWithParams(…, "lax")`
+accepts with the identical value and the identical unconsumed remainder. -/
+theorem lax_extends_strict (d : Dialect) (t : ATy) (p : FP) (bs : Bytes) (v : AVal) (r : Bytes)
+    (h : parseField d .strict t p bs = .ok (v, r)) : parseField d .lax t p bs = .ok (v, r) := by
+  have := parseField_rel d t p bs
+  rw [h] at this
+  exact this
+
+example : parseField ⟨false, false⟩ .strict (.struct false (.cons {} .int64 (.cons { optional := true } .str .nil))) {}
+    [0x30, 0x03, 0x02, 0x01, 0x05, 0xAA] = .ok (.struct none [.int 5, .absent (.str 0 [])], [0xAA]) := by rfl
+
+/-- **lax adds only the documented malformations.** If lax accepts an input that strict rejects, the
+strict parser failed *at* a non-minimally encoded INTEGER, an empty OBJECT IDENTIFIER, or a
+PrintableString holding an octet outside the alphabet whose content passes `couldBeISO8859_1` or
+`couldBeT61` (the error carries the content octets of the failing element). -/
+theorem lax_only_documented (d : Dialect) (t : ATy) (p : FP) (bs : Bytes) (x : AVal × Bytes) (e : Err)
+    (hl : parseField d .lax t p bs = .ok x) (hs : parseField d .strict t p bs = .error e) : Documented e := by
+  have := parseField_rel d t p bs
+  rw [hs, hl] at this
+  rcases this with ⟨e', h⟩ | h
+  · cases h
+  · exact h
+
+-- the three documented relaxations, nested two levels deep
+example : parseField ⟨false, false⟩ .strict (.seqOf false (.struct false (.cons {} .int64 .nil))) {} [0x30, 0x06, 0x30, 0x04, 0x02, 0x02, 0x00, 0x05]
+    = .error (.intNotMinimal [0x00, 0x05]) := by rfl
+example : parseField ⟨false, false⟩ .lax (.seqOf false (.struct false (.cons {} .int64 .nil))) {} [0x30, 0x06, 0x30, 0x04, 0x02, 0x02, 0x00, 0x05]
+    = .ok (.list [.struct none [.int 5]], []) := by rfl
+example : parseField ⟨true, true⟩ .strict .oid {} [0x06, 0x00] = .error .oidEmpty ∧
+    parseField ⟨true, true⟩ .lax .oid {} [0x06, 0x00] = .ok (.oid [], []) := ⟨rfl, rfl⟩
+example : parseField ⟨true, true⟩ .strict .str {} [0x13, 0x02, 0x41, 0xe9] = .error (.printable [0x41, 0xe9]) ∧
+    parseField ⟨true, true⟩ .lax .str {} [0x13, 0x02, 0x41, 0xe9] = .ok (.str 19 [0x41, 0xc3, 0xa9], []) := ⟨rfl, rfl⟩
+-- neither ISO 8859-1 nor T.61: lax rejects as well
+example : ∃ e, parseField ⟨true, true⟩ .lax .str {} [0x13, 0x03, 0x41, 0x00, 0x23] = .error e := ⟨_, rfl⟩
 
 end C10
